@@ -7,13 +7,14 @@
        renaming = in-place writes).  Proved for every statement list: in the state parse() leaves behind, no Token
        and no Tree object occurs twice in the decay tables (not within one table, not in two); a table denotes a
        function of its own tokens only; hence writing any token of one table leaves what every other table denotes
-       unchanged — copied and conjugated tables share no state with their sources.
+       unchanged — copied and conjugated tables share no state with their sources; and parse() never raises the TypeError
+       of finding F1 (no token is converted twice).
    PARTIAL: queries are modelled as pure readers of that state (functions hres -> value), so "a query never changes
    the parser" holds in the model by construction and is established for the implementation by the executed part
    of the check (query histories with mutation of the results, against a fresh parse); that the heap model
    allocates and shares exactly where CPython/Lark do is the correspondence on the object graph (ids). *)
 From Coq Require Import String List Bool ZArith QArith.
-From DL Require Import Lib.Val Lib.PyDict Decay.Conj Dec.Tables Dec.Syntax Dec.Post Dec.Heap Dec.HeapProofs.
+From DL Require Import Lib.Val Lib.PyDict Decay.Conj Dec.Tables Dec.Syntax Dec.Post Dec.Heap Dec.HeapProofs Dec.HeapValues.
 Import ListNotations.
 Close Scope Q_scope.
 Open Scope string_scope.
@@ -76,6 +77,13 @@ Theorem C08_write_to_one_table_changes_no_other : forall ccdb sc inc f r i v t t
   read_table (upd i v (h_toks (r_state r))) t' = read_table (h_toks (r_state r)) t'.
 Proof. exact parse_heap_tables_independent. Qed.
 Print Assumptions C08_write_to_one_table_changes_no_other.
+
+(* parse() never raises TypeError: the value visitor meets every token at most once, and every token it meets still holds a
+   string — whatever the file, however many lines and blocks use one ModelAlias (the symptom of finding F1 cannot return
+   without the model and the implementation disagreeing on the object graph) *)
+Theorem C08_no_token_converted_twice : forall ccdb sc inc f, parse_heap ccdb sc inc f <> inr HTypeError.
+Proof. exact parse_heap_no_type_error. Qed.
+Print Assumptions C08_no_token_converted_twice.
 
 (* non-vacuity: a file with a shared ModelAlias, a CopyDecay and a CDecay is parsed (no error), its heap state denotes the
    tables of the value model, and two of its tables are different objects with tokens *)
